@@ -182,6 +182,15 @@ def gen_pairs(rep):
     pairs.append((big, big))
     pairs.append((big, big[:66000] + b"XYZ" + big[66000:]))
     pairs.append((big, big[69000:] + big[:68000]))
+    # boundary-directed: common runs of exactly k * _MAX_COPY_LEN (0xFFFF) bytes and one off,
+    # followed / preceded by another operation (constants taken from Model/Delta.v enc_copies)
+    for L in ([65535, 65534, 65536, 131070] if rep.tier == "quick" else [65535, 65534, 65536, 131070, 131069, 131071, 196605]):
+        run_ = rng.randbytes(L)
+        pairs.append((run_, run_ + b"!tail"))
+        pairs.append((run_ + b"#" * 40, run_))
+    # inserts of exactly k * 127 bytes and one off
+    for L in (127, 126, 128, 254, 253, 255, 381):
+        pairs.append((b"base-" * 4, b"base-" * 4 + rng.randbytes(L)))
     if rep.tier == "thorough":
         big2 = rng.randbytes(200000)
         pairs.append((big2, big2))
